@@ -75,9 +75,7 @@ pub fn index_define(push_state: &mut PushState, _instruction_cache: &Instruction
 /// INDEX.DESTINATION: Pushes the destination field of the top INDEX to the INTEGER stack.
 pub fn index_destination(push_state: &mut PushState, _instruction_cache: &InstructionCache) {
     if let Some(index) = push_state.index_stack.copy(0) {
-        push_state
-            .index_stack
-            .push(Index::new(index.destination as usize));
+        push_state.int_stack.push(index.destination as i32);
     }
 }
 
